@@ -62,18 +62,19 @@ theorem threads_default (e : PoolEnv) (h : e.numThreads = none ∨ ∃ v, e.numT
 choose (e.g. `RAYON_NUM_THREADS = 40 > physical`) -/
 example : min (0 : Nat) 16 = 0 := rfl
 
-/-- pinning never panics in release builds, for every affinity mask and thread index; in debug builds it
-panics exactly when the index is outside a non-empty mask (the panic is confined to the worker's start
-handler; the probes show the pool still starts and runs work) -/
-theorem pin_total (avail idx : Nat) (ok : Bool) :
-    (pinCurrent false avail idx ok).isSome = true
-    ∧ ((pinCurrent true avail idx ok).isNone = true ↔ (avail ≠ 0 ∧ avail ≤ idx)) := by
+/-- **pinning never panics**, for every build configuration, every affinity mask (any number of CPUs, also fewer than
+the pool has threads, also none) and every thread index; it pins exactly when the index is inside the mask.
+(Before the fix 8898592 the debug-assertions build panicked for `avail ≤ idx`, which aborts the process from inside
+rayon's start handler.) -/
+theorem pin_total (dbg : Bool) (avail idx : Nat) (ok : Bool) :
+    (pinCurrent dbg avail idx ok).isSome = true
+    ∧ (pinCurrent dbg avail idx ok = some true ↔ (idx < avail ∧ ok = true)) := by
   unfold pinCurrent
   by_cases h0 : avail = 0
   · simp [h0]
   · by_cases h1 : avail ≤ idx
-    · simp [h0, h1]
-    · simp [h0, h1]
+    · simp [h0, h1]; omega
+    · simp [h0, h1]; omega
 
 /-! ### one shared pool -/
 
